@@ -27,6 +27,7 @@ import (
 	"context"
 	"errors"
 	"fmt"
+	"runtime"
 	"sort"
 	"strings"
 	"sync"
@@ -444,6 +445,13 @@ func (w *v20World) reportFatal(gen int, name string) bool {
 		w.fatalBack.Add(1)
 	}()
 	return true
+}
+
+// v20HandoverGoroutines: goroutines started by graph.Host.NotifyComponentStatusChange that still wait to hand a fatal error over
+func v20HandoverGoroutines() int {
+	buf := make([]byte, 1<<20)
+	n := runtime.Stack(buf, true)
+	return strings.Count(string(buf[:n]), "NotifyComponentStatusChange.func1(")
 }
 
 func (w *v20World) postAsync() {
@@ -925,7 +933,14 @@ func (d *v20Det) runCase(budget int, corpus []string) {
 			d.release()
 			d.settle(false)
 			w.sdFail.Store(false)
-			d.pendFatal = 0 // service.Shutdown released the pending hand-overs of that service
+			if d.pendFatal > 0 {
+				// service.Shutdown closed host.Done: the pending hand-over goroutines of that service are stale and give up as
+				// soon as they run. Wait until they are gone (goroutine dump), so that none can still deliver to a later select.
+				if !w.waitFor(func() bool { return v20HandoverGoroutines() == 0 }, v20Wait) {
+					d.bad = true
+				}
+			}
+			d.pendFatal = 0
 			d.emit("sd"+is+" "+map[bool]string{false: "ok", true: "fail"}[fail], true)
 		case "prov":
 			w.provFail.Store(fail)
